@@ -63,6 +63,10 @@ func (a AnonymousFlattenMangler) unmangleStruct(sf reflect.StructField, fvs []Fi
 	for i := 0; i < sf.Type.NumField(); i++ {
 		oft := sf.Type.Field(i)
 		if oft.Name == fvs[fvsIdx].Field.Name {
+			// named scalar types arrive with their underlying type from e.g. the StringCastingMangler
+			if fv, ok := assignableOrConverted(fvs[fvsIdx].Value, oft.Type); ok {
+				fvs[fvsIdx].Value = fv
+			}
 			out.Field(i).Set(fvs[fvsIdx].Value)
 			switch fvs[fvsIdx].Value.Kind() {
 			// check for nil-able types
